@@ -59,6 +59,8 @@ type healthWorld struct {
 	kind   int
 	roots  []atree.SlabID // the root slabs of the top-level containers, known from construction
 	conts  []hwCont
+	// the digester builder each top-level map was built with (reading it by key needs the same digests)
+	builders map[atree.SlabID]atree.DigesterBuilder
 }
 
 func hcMust(err error) {
@@ -72,7 +74,7 @@ func hcMust(err error) {
 func buildWorld(seed int64, kind int, committed bool) *healthWorld {
 	rng := rand.New(rand.NewSource(seed))
 	atree.VerifSetThreshold(256)
-	w := &healthWorld{ledger: hx.NewLedger(), kind: kind}
+	w := &healthWorld{ledger: hx.NewLedger(), kind: kind, builders: map[atree.SlabID]atree.DigesterBuilder{}}
 	w.ps = hx.NewStorage(w.ledger)
 	switch kind {
 	case hwArrays:
@@ -162,6 +164,7 @@ func buildMaps(rng *rand.Rand, w *healthWorld, collide bool) {
 		}
 		w.roots = append(w.roots, m.SlabID())
 		w.conts = append(w.conts, c)
+		w.builders[m.SlabID()] = b
 	}
 }
 
@@ -547,6 +550,30 @@ func healthStream(cfg *Config) (res *hx.Stats) {
 		committed bool
 	}
 	var specs []worldSpec
+	// reading the elements THROUGH the containers after a referenced slab was deleted (dangling.go): every failure
+	// is a SlabNotFoundError (Fatal) naming the slab, some read reports it, nothing panics
+	runDeep := func(prog int, label string, hw *healthWorld, id atree.SlabID) {
+		curProg = prog
+		if len(st.Violations) >= 30 {
+			return
+		}
+		d := healthDeepRead(hw, id)
+		st.Ops += d.reads
+		st.Hit("deepread:" + strings.SplitN(label, "@", 2)[0])
+		st.Dist["deepread:requests"] += d.reads
+		st.Dist["deepread:slab-not-found"] += d.errs
+		for _, b := range d.bad {
+			v := hx.Violation{Property: "C20", Stream: "health", Seed: cfg.Seed, Program: prog, Trace: w.Path, Line: w.Lines,
+				What: fmt.Sprintf("reading through the containers after the referenced slab %s was deleted (%s): %s", hx.IDStr(id), label, b)}
+			if strings.Contains(b, "PANIC") {
+				v.Property = "*"
+			}
+			st.Violations = append(st.Violations, v)
+		}
+		if d.errs == 0 && len(d.bad) == 0 {
+			viol(prog, fmt.Sprintf("%d reads through the containers after the referenced slab %s was deleted (%s): none of them reports it", d.reads, hx.IDStr(id), label), "")
+		}
+	}
 	for p := 0; p < nWorlds; p++ {
 		specs = append(specs, worldSpec{cfg.Seed*1000 + int64(p), p % hwKinds, (p/hwKinds)%2 == 1})
 	}
@@ -604,10 +631,12 @@ func healthStream(cfg *Config) (res *hx.Stats) {
 			runCheck(p, "delete-pending@"+hx.IDStr(id), x, nr, "SlabNotFound", "delete-referenced:pending-or-cached-nil")
 			runCheck(p, "delete-pending-nocount@"+hx.IDStr(id), x, -1, "SlabNotFound", "delete-referenced:pending-or-cached-nil")
 			runIter(p, "delete-pending@"+hx.IDStr(id), x)
+			runDeep(p, "delete-pending@"+hx.IDStr(id), x, id)
 			// ... committed (the deletion is then a nil entry of the read cache)
 			if err := x.ps.FastCommit(1); err == nil {
 				runCheck(p, "delete-committed@"+hx.IDStr(id), x, nr, "SlabNotFound", "delete-referenced:pending-or-cached-nil")
 				runIter(p, "delete-committed@"+hx.IDStr(id), x)
+				runDeep(p, "delete-committed@"+hx.IDStr(id), x, id)
 			}
 			// ... and physically, followed by a reload of everything that is left
 			if committed {
@@ -617,6 +646,7 @@ func healthStream(cfg *Config) (res *hx.Stats) {
 				_ = y.ps.BatchPreload(y.ledger.SortedIDs(), 2)
 				runCheck(p, "delete-physical@"+hx.IDStr(id), y, nr, "SlabNotFound", "delete-referenced:physical")
 				runIter(p, "delete-physical@"+hx.IDStr(id), y)
+				runDeep(p, "delete-physical@"+hx.IDStr(id), y, id)
 			}
 		}
 		// (b) an unreferenced slab beyond the expected root count
